@@ -362,6 +362,35 @@ func Exec(t *testing.T, sc Scenario, r *evid.Run) *evid.Failure {
 		if fail == nil && stuck == false && !isReturned() {
 			fail = evid.Failf("block/after-close", sc, "the call is blocked after Close")
 		}
+		// a request issued on the closed connection (with a context that is not cancelled) must fail
+		// promptly too: nothing an earlier, failed operation left behind may block it
+		if fail == nil {
+			followDone := make(chan error, 1)
+			fctx, fcancel := context.WithTimeout(context.Background(), 1000*time.Second)
+			go func() {
+				req, err := cc.NewGetRequest(fctx, "/after")
+				if err != nil {
+					followDone <- err
+					return
+				}
+				req.SetToken([]byte{0xAF, 1})
+				_, err = cc.Do(req)
+				followDone <- err
+			}()
+			time.Sleep(allowance)
+			bubble.Wait()
+			select {
+			case err := <-followDone:
+				if err == nil {
+					fail = evid.Failf("block/request-on-closed-connection-succeeded", sc, "a request issued after Close returned success")
+				}
+			default:
+				fail = evid.Failf("block/request-after-close-hangs", sc, "a request issued after Close (context not cancelled) is still blocked %v later: something an earlier operation left behind blocks it", allowance)
+			}
+			fcancel()
+			time.Sleep(time.Second)
+			bubble.Wait()
+		}
 		if blockerDone != nil {
 			select {
 			case <-blockerDone:
